@@ -77,6 +77,95 @@ decreasing_by
   all_goals (try (have := endFragment_len h2))
   all_goals simp only [machineMeasure, Prod.lex_def] <;> simp <;> omega
 
+/-! Linear executable twin of `run`: the items / entries of the containers under construction are
+    kept in reverse (`v :: a` instead of `a ++ [v]`) and reversed once when the container is closed.
+    Proved equal to `run` on the un-reversed stack and installed with `@[csimp]`: compiled code runs
+    the twin, every theorem keeps speaking about `run`. -/
+def StackItem.unrev : StackItem → StackItem
+  | .array a i => .array a.reverse i
+  | .arrayItem a i => .arrayItem a.reverse i
+  | .object es i => .object es.reverse i
+  | .objectEntry es i key e => .objectEntry es.reverse i key e
+
+def runR (o : ParseOptions) (stack : List StackItem) (value : Option JValue) (s : PS) :
+    Except PErr (JValue × PS) :=
+  match stack, value with
+  | [], some v =>
+    match skipWs s with
+    | .error e => .error e
+    | .ok s1 =>
+      match s1.rest with
+      | c :: _ => .error (.unexpected s1.pos (some c))
+      | [] => .ok (v, s1)
+  | [], none =>
+    match h : parseFragment o .none s with
+    | .error e => .error e
+    | .ok (.value v, s') => runR o [] (some v) s'
+    | .ok (.beginArray i, s') => runR o [.arrayItem [] i] none s'
+    | .ok (.beginObject i key e, s') => runR o [.objectEntry [] i key e] none s'
+  | .array a i :: k, _ =>
+    match h : contArray i s with
+    | .error e => .error e
+    | .ok (.item, s') => runR o (.arrayItem a i :: k) none s'
+    | .ok (.end_, s') => runR o k (some (.array a.reverse)) s'
+  | .arrayItem a i :: k, some v => runR o (.array (v :: a) i :: k) none s
+  | .arrayItem a i :: k, none =>
+    match h : parseFragment o .array s with
+    | .error e => .error e
+    | .ok (.value v, s') => runR o (.array (v :: a) i :: k) none s'
+    | .ok (.beginArray j, s') => runR o (.arrayItem [] j :: .arrayItem a i :: k) none s'
+    | .ok (.beginObject j key e, s') => runR o (.objectEntry [] j key e :: .arrayItem a i :: k) none s'
+  | .object es i :: k, _ =>
+    match h : contObject o i s with
+    | .error e => .error e
+    | .ok (.entry key e, s') => runR o (.objectEntry es i key e :: k) none s'
+    | .ok (.end_, s') => runR o k (some (.object es.reverse)) s'
+  | .objectEntry es i key e :: k, some v =>
+    match h : s.endFragment e with
+    | .error x => .error x
+    | .ok s' => runR o (.object ((key, v) :: es) i :: k) none s'
+  | .objectEntry es i key e :: k, none =>
+    match h : parseFragment o .objectValue s with
+    | .error x => .error x
+    | .ok (.value v, s') =>
+      match h2 : s'.endFragment e with
+      | .error x => .error x
+      | .ok s'' => runR o (.object ((key, v) :: es) i :: k) none s''
+    | .ok (.beginArray j, s') => runR o (.arrayItem [] j :: .objectEntry es i key e :: k) none s'
+    | .ok (.beginObject j key' e', s') =>
+      runR o (.objectEntry [] j key' e' :: .objectEntry es i key e :: k) none s'
+termination_by (machineMeasure value s, stack.length)
+decreasing_by
+  all_goals simp_wf
+  all_goals (try (have := parseFragment_len h))
+  all_goals (try (have := contArray_len h))
+  all_goals (try (have := contObject_len h))
+  all_goals (try (have := endFragment_len h))
+  all_goals (try (have := endFragment_len h2))
+  all_goals simp only [machineMeasure, Prod.lex_def] <;> simp <;> omega
+
+theorem runR_eq (o : ParseOptions) (stack : List StackItem) (value : Option JValue) (s : PS) :
+    runR o stack value s = run o (stack.map StackItem.unrev) value s := by
+  fun_induction runR o stack value s <;>
+    simp only [List.map_cons, List.map_nil, StackItem.unrev] <;> rw [run]
+  all_goals (repeat' split)
+  all_goals (first | rfl | (simp_all [StackItem.unrev]; done) | skip)
+
+def runImpl (o : ParseOptions) (stack : List StackItem) (value : Option JValue) (s : PS) :
+    Except PErr (JValue × PS) :=
+  runR o (stack.map StackItem.unrev) value s
+
+theorem StackItem.unrev_unrev (x : StackItem) : x.unrev.unrev = x := by
+  cases x <;> simp [StackItem.unrev]
+
+@[csimp] theorem run_eq_impl : @run = @runImpl := by
+  funext o stack value s
+  simp only [runImpl, runR_eq, List.map_map]
+  congr 1
+  induction stack with
+  | nil => rfl
+  | cons x xs ih => simp [StackItem.unrev_unrev, ← ih]
+
 /-- `Parse::parse_with` on a decoded character stream: `chars` are the characters the stream
     yields before it ends (`bad = false`) or fails (`bad = true`). -/
 def parseChars (o : ParseOptions) (chars : List Char) (bad : Bool) :
